@@ -136,6 +136,13 @@ type worker struct {
 	out *bufio.Reader
 }
 
+type witnessItem struct {
+	job   Job
+	w     *Violation
+	obs   map[string]string
+	first bool
+}
+
 // inconclusiveWhere: the first few jobs in which each inconclusive reason arose
 var inconclusiveWhere = map[string][]string{}
 
@@ -536,7 +543,7 @@ func checkMain(args []string) int {
 	}
 	var cands []cand
 	seenKey := map[string]bool{}
-	var witnesses []*JobResult
+	var witnesses []witnessItem
 	if os.Getenv("GOSYM_VERBOSE") != "" {
 		for _, r := range results {
 			if r != nil {
@@ -586,7 +593,10 @@ func checkMain(args []string) int {
 			vacuous = append(vacuous, fmt.Sprintf("%s%v", r.Job.Harness, r.Job.Args))
 		}
 		if r.Witness != nil {
-			witnesses = append(witnesses, r)
+			witnesses = append(witnesses, witnessItem{job: r.Job, w: r.Witness, obs: r.WitnessObs, first: true})
+			for _, mw := range r.MoreWitness {
+				witnesses = append(witnesses, witnessItem{job: r.Job, w: mw.W, obs: mw.Obs})
+			}
 			if len(samples) < 6 {
 				samples = append(samples, map[string]any{"harness": r.Job.Harness, "args": r.Job.Args, "paths": r.Paths, "obligations": r.Obligations, "witness_model": r.Witness.Model, "observed": r.WitnessObs})
 			}
@@ -661,33 +671,34 @@ func checkMain(args []string) int {
 	// witness replay = translator validation
 	nWitness, nWitnessBad := 0, 0
 	var witnessBad []string
-	maxW := 6
+	maxW := 48
 	if *tier == "thorough" {
-		maxW = 24
+		maxW = 300
 	}
 	rng.Shuffle(len(witnesses), func(i, j int) { witnesses[i], witnesses[j] = witnesses[j], witnesses[i] })
-	// prefer one witness per harness name first
-	sort.SliceStable(witnesses, func(i, j int) bool { return false })
+	// one witness per harness name first, then first-path and later-path witnesses
+	// alternately up to the cap
 	seenH := map[string]bool{}
-	var chosen []*JobResult
-	for _, r := range witnesses {
-		if !seenH[r.Job.Harness] && !noReplay[r.Job.Harness] {
-			seenH[r.Job.Harness] = true
+	var chosen []witnessItem
+	taken := make([]bool, len(witnesses))
+	for i, r := range witnesses {
+		if !seenH[r.job.Harness] && !noReplay[r.job.Harness] {
+			seenH[r.job.Harness] = true
 			chosen = append(chosen, r)
+			taken[i] = true
 		}
 	}
-	for _, r := range witnesses {
-		if len(chosen) >= maxW {
-			break
-		}
-		if !noReplay[r.Job.Harness] {
+	for pass := 0; pass < 2; pass++ {
+		for i, r := range witnesses {
+			if len(chosen) >= maxW {
+				break
+			}
+			// pass 0: later paths (the ones a first-path witness never reaches)
+			if taken[i] || noReplay[r.job.Harness] || (pass == 0) == r.first {
+				continue
+			}
 			chosen = append(chosen, r)
-		}
-	}
-	if len(chosen) > maxW && maxW < len(seenH) {
-		// keep at least one per harness even if above the cap in thorough
-		if *tier != "thorough" {
-			chosen = chosen[:maxW]
+			taken[i] = true
 		}
 	}
 	var wmu sync.Mutex
@@ -695,11 +706,11 @@ func checkMain(args []string) int {
 	sem := make(chan struct{}, 8)
 	for _, r := range chosen {
 		wwg.Add(1)
-		go func(r *JobResult) {
+		go func(r witnessItem) {
 			defer wwg.Done()
 			sem <- struct{}{}
 			defer func() { <-sem }()
-			o := rep.replay(r.Witness)
+			o := rep.replay(r.w)
 			wmu.Lock()
 			defer wmu.Unlock()
 			nWitness++
@@ -714,7 +725,7 @@ func checkMain(args []string) int {
 			case len(o.FailedAssert) > 0:
 				bad = "native run failed assertions the executor proved: " + strings.Join(o.FailedAssert, ",")
 			default:
-				for k, want := range r.WitnessObs {
+				for k, want := range r.obs {
 					if got, ok := o.Obs[k]; !ok || got != want {
 						if want == "<opaque>" {
 							continue
@@ -726,7 +737,7 @@ func checkMain(args []string) int {
 			}
 			if bad != "" {
 				nWitnessBad++
-				witnessBad = append(witnessBad, fmt.Sprintf("%s%v: %s", r.Job.Harness, r.Job.Args, firstLines(bad, 6)))
+				witnessBad = append(witnessBad, fmt.Sprintf("%s%v: %s", r.job.Harness, r.job.Args, firstLines(bad, 6)))
 			}
 		}(r)
 	}
